@@ -756,3 +756,69 @@ def r_gsupp(A, ctx, scope, rule="R-GSUPP"):
                            what=f"{model.tag}: generalized_support is False for the block {ws} although the "
                                 "prox moves it", loc=where)
     ctx.floor(rule, n, scope.get("floor", 40))
+
+
+# ------------------------------------------------------------------- zero weights, scalar proxes
+def r_prox_zero_weight(A, ctx, scope, rule="R-PROX-ZEROWEIGHT"):
+    ctx.rule(rule, "weighted separable penalties with a zero weight on the coordinate: the prox is "
+             "still the minimiser of 0.5 (u - x)^2 + stepsize * value(u) under the configured "
+             "constraint - non-negative output under positive=True, stationarity where u != 0, "
+             "one-sided optimality where u = 0 (value() lifted with the same zero weight)")
+    n = 0
+    for cls in A.prog.penalties:
+        px = cls.find_method("prox_1d")
+        spec = dict(A.prog.spec_of(cls) or [])
+        if px is None or px.cls.name == "BasePenalty" or "weights" not in spec:
+            continue
+        where = loc(px, px.node)
+        for var in _variants(A.prog, cls):
+            positive = bool(var.get("positive"))
+            model = ScalarModel(A, cls, var)
+            zobj = model.self_obj()
+            zobj.attrs["weights"] = Vec([sym("wtA"), const(0)])
+            for x in (-4.0, -0.3, 0.45, 3.7):
+                key = f"{cls.fq}::prox_1d::{model.tag}{{zero weight}}::x={x}"
+                try:
+                    L, rg = model.lifter({"x": x})
+                    u = R(L.call_function(px, [sym("x"), sym("s"), 1], self_obj=zobj))
+                    un = rg.num(u)
+                except Raised as e:
+                    n += 1
+                    ctx.ob(rule, key, False, what=f"{model.tag}.prox_1d raises with a zero weight: {e}", loc=where)
+                    continue
+                except (Unsupported, ZeroDivisionError) as e:
+                    ctx.ob(rule, key, None, detail=f"not lifted: {e}")
+                    continue
+                n += 1
+                if positive and un < -1e-12:
+                    ctx.ob(rule, key, False,
+                           what=f"{model.tag} with weights[j] = 0: prox({x}) = {un:.4g} is negative although "
+                                "positive=True (an unpenalised coordinate is still constrained)", loc=where)
+                    continue
+                try:
+                    def dval(at):
+                        L2, rg2 = model.lifter({"w0": at})
+                        v = R(L2.call_function(cls.find_method("value"), [Vec([sym("wa"), sym("w0")])], self_obj=zobj))
+                        return derivative(v, ("sym", "w0")), rg2
+                    if abs(un) > 1e-12:
+                        d, _ = dval(un)
+                        e = u - sym("x") + sym("s") * substitute(d, {("sym", "w0"): u})
+                        ok = e.is_zero()
+                        res = rg.num(e)
+                        _residual_verdict(ctx, rule, key, ok, res,
+                                          f"{model.tag} with weights[j] = 0: prox({x}) = {un:.4g} is not "
+                                          "stationary for its own value()", where, [])
+                    else:
+                        dp, rgp = dval(1e-5)
+                        right = -x + HYP["s"] * rgp.num(substitute(dp, {("sym", "w0"): const(0)}))
+                        okz = right >= -1e-9
+                        if not positive:
+                            dm, rgm = dval(-1e-5)
+                            left = -x + HYP["s"] * rgm.num(substitute(dm, {("sym", "w0"): const(0)}))
+                            okz = okz and left <= 1e-9
+                        ctx.ob(rule, key, okz,
+                               what=f"{model.tag} with weights[j] = 0: prox({x}) = 0 although moving away from "
+                                    "0 decreases the prox objective", loc=where)
+                except (Unsupported, Raised, ZeroDivisionError) as e:
+                    ctx.ob(rule, key, None, detail=f"value not lifted: {e}")
+    ctx.floor(rule, n, scope.get("floor", 12))
